@@ -111,6 +111,9 @@ func modulePkgPath(repo, dir string) string {
 
 func LoadContracts(repo string, extraDirs ...string) (*ContractTable, error) {
 	ct := &ContractTable{ByKey: map[string]*Contract{}, Ghosts: map[string]*GhostVar{}, GhostFields: map[string]*GhostField{}, Preds: map[string]*Pred{}}
+	// ghosts maintained by the engine itself (channel sends, see VC.recordSend)
+	ct.Ghosts["sendN"] = &GhostVar{Name: "sendN", Sort: SInt}
+	ct.Ghosts["sentRefs"] = &GhostVar{Name: "sentRefs", Sort: ArrSort(SInt, SBool)}
 	var files []string
 	filepath.Walk(repo, func(p string, info os.FileInfo, err error) error {
 		if err != nil {
